@@ -306,7 +306,7 @@ class Engine:
         sf = self.stream_field
         return self._one("stream-line primitive", self._methods_calling(self.reader_cls, lambda c: self._is_field_call(c, sf, "readline")))
 
-    def _callee_under_guard(self, qual: str, guard_pred) -> list[str]:
+    def _callee_under_guard(self, qual: str, guard_pred, signed: bool = False) -> list[str]:
         """Package methods called in `qual` at sites dominated by a branch condition satisfying guard_pred."""
         f = self.repo.func(qual)
         g = self.cfg(qual)
@@ -318,9 +318,28 @@ class Engine:
             if node is None:
                 continue
             for test, pol in g.guards(node.id):
-                if pol and guard_pred(test):
+                if signed:
+                    if guard_pred(test, pol):
+                        out.extend(t for t in s.targets if t in self.repo.funcs)
+                elif pol and guard_pred(test):
                     out.extend(t for t in s.targets if t in self.repo.funcs)
         return out
+
+    def _implies_equal_const(self, test: ast.AST, pol: bool, mod: str, value) -> bool:
+        """The branch outcome `pol` of `test` implies that something equals the constant `value`: `x == K` taken, `x != K` not taken, a conjunct of
+        a taken `and`, a disjunct of a not-taken `or` (`if b != K or ...: raise` - whatever follows has b == K)."""
+        if isinstance(test, ast.UnaryOp) and isinstance(test.op, ast.Not):
+            return self._implies_equal_const(test.operand, not pol, mod, value)
+        if isinstance(test, ast.BoolOp):
+            if isinstance(test.op, ast.And) and pol:
+                return any(self._implies_equal_const(v, True, mod, value) for v in test.values)
+            if isinstance(test.op, ast.Or) and not pol:
+                return any(self._implies_equal_const(v, False, mod, value) for v in test.values)
+            return False
+        if isinstance(test, ast.Compare) and len(test.ops) == 1:
+            eq = isinstance(test.ops[0], ast.Eq) and pol or isinstance(test.ops[0], ast.NotEq) and not pol
+            return bool(eq) and (self._mentions_const(test.left, mod, value) or self._mentions_const(test.comparators[0], mod, value))
+        return False
 
     def _mentions_const(self, expr: ast.AST, mod: str, value) -> bool:
         for n in ast.walk(expr):
@@ -353,6 +372,11 @@ class Engine:
             pre = bytes([0xD3])
             c = self._guarded_callee(lambda t: self._mentions_const(t, "rtcmreader", pre))
             c = [q for q in c if q not in (self.read_primitive, self.line_primitive) and q != parse]
+            if not c:
+                # the preamble test written as a guard clause (`if byte1 != 0xd3 or ...: raise`): the assembler is called where the test has failed
+                q0 = f"{self.reader_cls}.read"
+                c = self._callee_under_guard(q0, lambda t, pol: self._implies_equal_const(t, pol, "rtcmreader", pre), signed=True)
+                c = [q for q in c if q.startswith(self.reader_cls + ".") and q not in (self.read_primitive, self.line_primitive, self.error_dispatcher) and q != parse]
         return self._one("frame assembler", sorted(set(c)))
 
     @cached_property
